@@ -385,6 +385,85 @@ func c02RunFLV(c *kit.Ctx, watch time.Duration) {
 			}
 		}
 	}
+
+	// two FLV joiners: A joins in GOP 1 and does not read yet; B joins after a later key frame; A then reads.
+	// A's replayed headers must still carry the timestamp of A's own first replayed media tag.
+	for rep := 0; rep < c.Pick(4, 60); rep++ {
+		fcase++
+		if !c.Mine(fcase) {
+			continue
+		}
+		rng := c.SubRng("c02flv2", rep)
+		items := c02FlvBuild(rng, uint64(rep)<<24|3<<60)
+		scen := "flv/two-joiners-first-one-slow"
+		c.Pre(scen)
+		s := c02Stream("H264", true)
+		// positions of the key tags
+		var keys []int
+		for i, it := range items {
+			if it.pp.keyStart {
+				keys = append(keys, i)
+			}
+		}
+		if len(keys) < 2 {
+			s.Close()
+			continue
+		}
+		ja := keys[0] + 1 + rng.Intn(keys[1]-keys[0]) // A joins inside GOP 1 (after its key tag)
+		jb := keys[len(keys)-1] + 1                   // B joins right after the last key tag
+		a := &kit.RecConsumer{Block: make(chan struct{}), BlockFrom: 0}
+		b := &kit.RecConsumer{}
+		for i := range items {
+			if i == ja {
+				s.StartConsume(a, media.FLVPacket, "A")
+			}
+			if i == jb {
+				s.StartConsume(b, media.FLVPacket, "B")
+			}
+			s.WriteFlvTag(items[i].tag)
+		}
+		close(a.Block)
+		sentID, _ := c02FlvID(items[len(items)-1].tag)
+		drained := waitUntil(func() bool {
+			it := a.Items()
+			if len(it) == 0 {
+				return false
+			}
+			id, _ := c02FlvID(it[len(it)-1].Pack.(*flv.Tag))
+			return id == sentID
+		}, watch)
+		s.Close()
+		c.Eval(1)
+		c.Distinct(scen)
+		c.SetAdd("interleavings_seen", scen)
+		if !drained {
+			c.Inconclusive("sentinel not delivered: " + scen)
+			continue
+		}
+		var hdrTs []uint32
+		firstMediaTs := uint32(0)
+		found := false
+		for _, it := range a.Items() {
+			t := it.Pack.(*flv.Tag)
+			if t.IsMetadata() || t.IsH2645SequenceHeader() || t.IsAACSequenceHeader() {
+				if !found {
+					hdrTs = append(hdrTs, t.Timestamp)
+				}
+				continue
+			}
+			if !found {
+				found = true
+				firstMediaTs = t.Timestamp
+			}
+		}
+		for _, ts := range hdrTs {
+			if found && ts != firstMediaTs {
+				c.Violation("C02:flv:replayed-header-timestamp-differs-from-first-replayed-media-tag:two-joiners", map[string]interface{}{
+					"header_timestamps": hdrTs, "first_media_timestamp": firstMediaTs, "a_joins_at": ja, "b_joins_at": jb})
+				break
+			}
+		}
+	}
 }
 
 func describeSeq2(seq []pubPkt) []string {
